@@ -51,6 +51,34 @@ the fixed rules listed under "Semantic choices" below.
      head of `List.dropWhile (¬p)`; `it` continues behind the element taken; the else block must diverge.
    * Skipped: `use …;` inside bodies.
 
+4. Second growth (task TRAN2; job tables in translator/jobs2.py)
+   * Patterns (`pattern`, `subpattern`, `patterns`): unit variants of the job's `paths` (bare names only when listed in
+     `bare_variants`), tuple variants `P(x, _)` with payload bound by name / ignored / an `Option` pattern, struct variants
+     `P { f, g: <sub>, .. }` of a job-declared `variants` entry (Lean constructor + fields in constructor order; fields under
+     `..` are bound to `<f>_rest`), tuple patterns `(P, Q)`, `None`, `Some(<sub>)`; alternatives `P | Q` may bind names only
+     if every alternative binds the same names; match guards are rejected.
+   * `matches!(e, P | Q)` = `match e with | P | Q => true | _ => false`.
+   * `let x = match e { P => return r, …, Q(v) => value };` (`let_match`): `return` arms leave the function, exactly one arm
+     yields the value, the rest of the block is placed inside that arm (pattern names must not occur in it).
+   * `if let <pattern> = <expr> { … } [else { … }]` as a statement (`if_let`).
+   * `match X { … }` / `match (e, X) { … }` on a live mutable enum-valued variable X listed in `enum_vars` (a `&mut self`
+     method whose `self` is renamed by `places`): the fields a struct-variant arm names become mutable variables of the arm
+     (types from `field_types`), assigned through `*f = e` or `std::mem::swap(f, g)`, and the arm ends by rebuilding
+     X := Ctor fields…; an arm with alternatives is written once per alternative.
+   * `match X.as_mut() { Some(v) => v.m(args), None => X = e }` on a live mutable `Option` variable, `m` in `mut_methods`.
+   * `self.m(args);` for a `self_methods` entry, where the state of `self` is the variable `self_var`: X := m X args — also
+     as a brace-less match arm; `x.f = e` on a `struct_vars` variable: a record update; `X[a][b]` / `X[a][b] = e` on an
+     `index2` variable: the job's get / set templates; struct literals may list their fields in any order (pure fields).
+   * `for (i, x) in …`: the pair is unpacked at the head of the body; closure parameters may carry a type `|a: F|` that the job
+     maps in `type_names`; `translate_expr_after`: the pure expression following a header, e.g. the body of a closure bound by
+     `let cmp = |q, r| match … ;`; `translate_fn` on a header that ends in a closure's `|…| {` translates that closure body.
+   * accessors (no-argument methods) may be lists of (receiver pattern, template), like the whitelisted calls.
+   * `while cond { … break; … }` (`while_stmt`): `Gen.whileFuel FUEL cond body σ` (GeoModel/TRAN2Prelude.lean) with FUEL the
+     job's `while_fuel` expression; the job must set `option_wrap`: every normal result of the function is `some …` and an
+     exhausted bound is `none`, so a wrong bound cannot yield a wrong value (the tie theorem shows `none` never occurs).
+   * closure parameters may be tuple patterns `|(_, p), (_, q)|` (Lean's pattern-matching `fun`); `v[<expr>]` with a computed
+     index only under `unguarded_index: "total"`.
+
 Semantic choices (fixed rules; everything else is in the job tables of rs2lean.py, each with a comment there)
    * numbers are exact rationals (`Rat`; counters `Nat` / `Int` per job): no overflow, no rounding, no NaN — so
      `a.partial_cmp(&b)` is never `None` (`Gen.partialCmp?`), comparisons become `decide (…)`, integer `/` and `%` are only
@@ -63,6 +91,16 @@ Semantic choices (fixed rules; everything else is in the job tables of rs2lean.p
      `v.len() < n` / `v.is_empty()`, or the debug assertion above) and becomes `Gen.idx v k` whose default is unreachable.
    * `unreachable!()` arms take the value chosen by the job (dead code for the types concerned).
    * Rust identifiers that are reserved words of Lean get a trailing `_` (not field names after a `.`).
+   * `panic!(…)` as an arm or last statement takes the value chosen by the job (`panic`; a unit function: the current state);
+     the panic itself is not modelled (the harness reports panics).
+   * `T::from(<integer literal>).unwrap()` is the literal as a `Rat` (the conversion never fails).
+   * job option `unguarded_index: "total"`: `v[k]` is `Gen.idx v k` also where no guard dominates it syntactically (the
+     source's guard is semantic, e.g. "dimension is not Empty"); out-of-range panics are not modelled.
+   * job option `ord_key`: `< <= > >=` in this job compare values of a derive(Ord) enum by the named rank function.
+   * job option `rank_match_default`: the job encodes an enum by its rank (`Nat`), so an exhaustive Rust match gets a
+     catch-all arm in Lean that leaves the state unchanged (dead: every rank is one of the listed numerals).
+   * square roots (`Euclidean.distance`, `Euclidean.length`, `hypot`) are never computed: they are parameters of the
+     regenerated terms, and the tie theorems state what they assume about them.
 
 Numbers become `Rat`, comparisons `decide (…)`, so that the result is a computable Lean term which can be compared
 (`rfl` / `simp`) with the hand-written model.
@@ -372,6 +410,18 @@ class Parser:
         while not self.at("|"):
             if self.at("&"):
                 self.eat()
+            if self.at("("):
+                # a tuple parameter `(a, _)`: Lean's pattern-matching `fun (a, _) => …`
+                self.eat()
+                comps = [self.eat("id")[1]]
+                while self.at(","):
+                    self.eat(); comps.append(self.eat("id")[1])
+                self.eat("op", ")")
+                params.extend(c for c in comps if c != "_")
+                typed.append("(" + ", ".join(comps) + ")")
+                if self.at(","):
+                    self.eat()
+                continue
             params.append(self.eat("id")[1])
             if self.at(":"):
                 # `|a: F|`: the parameter type, from the job's `type_names` (Rust type name -> Lean type)
@@ -561,6 +611,14 @@ class Parser:
                     idx.append(self.expr())
                     self.eat("op", "]")
                 e = self.opts["index2"][e]["get"].format(e, idx[0], idx[1])
+            elif self.at("[") and not (self.peek(1)[0] == "num" and self.peek(2) == ("op", "]")):
+                # `v[<expr>]` with a computed index: only with the job's explicit choice `unguarded_index: "total"`
+                if self.opts.get("unguarded_index") != "total" or e in self.arrays:
+                    raise TranslateError("computed index outside the fragment")
+                self.eat()
+                ix = self.expr()
+                self.eat("op", "]")
+                e = "(Gen.idx %s %s)" % (e, ix)
             elif self.at("["):
                 self.eat()
                 n = self.eat("num")[1]
@@ -857,6 +915,7 @@ class Env:
 
     def with_(self, **kw):
         e = Env(self.muts, self.cont, self.tail, self.retraw, self.ty)
+        e.brk = getattr(self, "brk", None)
         for k, v in kw.items():
             setattr(e, k, v)
         return e
@@ -912,7 +971,8 @@ class StmtParser(Parser):
         return term
 
     def unit_value(self):
-        return "(%s %s)" % (self.opts["ret_ctor"], " ".join(n for n, _ in self.opts["muts"]))
+        v = "(%s %s)" % (self.opts["ret_ctor"], " ".join(n for n, _ in self.opts["muts"]))
+        return "(some %s)" % v if self.opts.get("option_wrap") else v
 
     def fn_value(self, v):
         """the function result for `return v;` / `return;`"""
@@ -924,7 +984,7 @@ class StmtParser(Parser):
             raise TranslateError("`return;` in a function with a result")
         if self.fn_both:
             return "(%s, %s)" % (self.unit_value(), v)
-        return v
+        return "(some %s)" % v if self.opts.get("option_wrap") else v
 
     # ---- blocks
     def sblock(self, env):
@@ -998,6 +1058,14 @@ class StmtParser(Parser):
             return self.branch_stmt(env, self.skip_if_chain, self.if_chain)
         if self.at("match"):
             return self.branch_stmt(env, self.skip_match, self.match_chain)
+        if self.at("while"):
+            return self.while_stmt(env)
+        if self.at("break") and getattr(env, "brk", None) is not None:
+            self.eat()
+            self.end_of_stmt()
+            if not (self.at("}") or self.at(",")):
+                raise TranslateError("statements after `break`")
+            return env.brk
         if self.at("for"):
             return self.for_stmt(env)
         a = self.try_assign(env)
@@ -1584,6 +1652,37 @@ class StmtParser(Parser):
         return env.tail(e)
 
     # ---- loops
+    def while_stmt(self, env):
+        """`while cond { body }` with `break` / `return` in the body: `Gen.whileFuel FUEL cond body σ` over the live mutable
+        variables σ, FUEL = the job's `while_fuel` expression over them (an upper bound of the number of iterations that the
+        job claims; when it is exhausted the whole function answers `none` — the job must set `option_wrap`, every normal
+        result is `some …` — so a wrong bound cannot produce a wrong value, and the tie theorem shows `none` never occurs)"""
+        if not self.opts.get("option_wrap") or "while_fuel" not in self.opts:
+            raise TranslateError("`while` needs the job options while_fuel and option_wrap")
+        self.eat("id", "while")
+        c = self.expr()
+        names = env.names()
+        n = len(names)
+        if n == 0:
+            raise TranslateError("`while` without mutable state")
+        sigma = " × ".join(t for _, t in env.muts)
+        tup = "(" + ", ".join(names) + ")" if n != 1 else names[0]
+        s = self.gensym("w")
+
+        def unpack(sv):
+            return "".join("let %s := %s\n" % (nm, proj(sv, i, n)) for i, nm in enumerate(names))
+        rho = self.opts["ret_type"]
+        benv = Env(env.muts, "(Gen.WStep.cont %s)" % tup, None, lambda v: "(Gen.WStep.ret %s)" % v,
+                   "Gen.WStep (%s) (%s)" % (sigma, rho))
+        benv.brk = "(Gen.WStep.brk %s)" % tup
+        body = self.sblock(benv)
+        rest = self.sstmts(env)
+        r = self.gensym("r")
+        return ("(match Gen.whileFuel (σ := %s) (ρ := %s) (%s) (fun (%s : %s) =>\n%s%s) (fun (%s : %s) =>\n%s%s) %s with\n"
+                "  | none => none\n  | some (.ret %s) => %s\n  | some (.next %s) =>\n%s%s)"
+                % (sigma, rho, self.opts["while_fuel"], s, sigma, unpack(s), c, s, sigma, unpack(s), body, tup,
+                   r, env.retraw(r), s, unpack(s), rest))
+
     def for_stmt(self, env):
         self.eat("id", "for")
         if self.at("&"):
